@@ -14,9 +14,10 @@ FILES = ["Model_core.v", "Model_minerals.v", "Proofs_core.v", "Proofs_minerals.v
 PROP = "Properties/C06.v"
 
 
-def reference_F(get_L, get_x, F0, t0, t1):
+def reference_F(get_L, get_x, F0, t0, t1, pristine=None):
     def f(t, y):
-        return (np.asarray(get_L(t, get_x(t)), dtype=float) @ y.reshape(3, 3)).reshape(-1)
+        L = pristine if pristine is not None else np.asarray(get_L(t, get_x(t)), dtype=float)
+        return (L @ y.reshape(3, 3)).reshape(-1)
     sol = solve_ivp(f, (t0, t1), F0.reshape(-1), method="DOP853", rtol=1e-11, atol=1e-13)
     return sol.y[:, -1].reshape(3, 3)
 
@@ -40,7 +41,7 @@ def check_history(h, F0, fails):
     eps = 0.0
     for k in range(1, len(h["F_hist"])):
         t1 = k * dt
-        Fref = reference_F(get_L, get_x, F0, 0.0, t1)
+        Fref = reference_F(get_L, get_x, F0, 0.0, t1, pristine=h["desc"].get("pristine"))
         F = h["F_hist"][k]
         eps = c01.strain_of(get_L, get_x, 0.0, t1)
         rel = float(np.abs(F - Fref).max() / max(1e-300, np.abs(Fref).max()))
@@ -72,7 +73,7 @@ def run(chk):
             N = 16 if chk.tier == "quick" else 200
             for i in range(N):
                 # the first scenarios are rigid rotations (zero strain rate, F must still follow dF/dt = L.F)
-                forced = {0: "spin", 1: "shear_then_spin", 2: "stopping"}.get(i)
+                forced = {0: "spin", 1: "shear_then_spin", 2: "stopping", 3: "shared"}.get(i)
                 sc = MT.scenario(rng, regime=int((4, 6, 0, 7, 4)[i % 5]), n=int(rng.integers(2, 12)), lkind=forced)
                 F0 = random_F0(rng)
                 h = c01.run_history(rec, sc, F0=F0)
